@@ -223,7 +223,7 @@ WILD_BODIES = [
     "[1,2,3].reduce(function(a,b){ P(1); return a+b }); Array.from({length:2}, function(){ P(2) });",
     "'abc'.replace(/b/g, function(){ P(1); return 'x' }); new Map([[1,2]]).forEach(function(){ P(2) });",
     "function r(n){ P(1); if (n>0) r(n-1); } r(5);",
-    "function r(n){ try { r(n+1) } finally { P(1) } } try { r(0) } catch(e) { P(2) }",
+    "function r(n){ try { if (n<70) r(n+1); else throw 1 } finally { P(1) } } try { r(0) } catch(e) { P(2) }",
     "var it={ [Symbol.iterator](){ return { next(){ P(1); return {value:1,done:false} }, return(){ P(2); return {} } } } }; for (var v of it) { P(3); break }",
     "var it={ [Symbol.iterator](){ return { next(){ P(1); return {value:1,done:false} }, return(){ P(2); return {} } } } }; var [a,b]=it; P(3);",
     "var it={ [Symbol.iterator](){ return { next(){ P(1); return {value:1,done:false} }, return(){ P(2); return {} } } } }; try { for (var v of it) { P(3); throw 1 } } catch(e) { P(4) }",
@@ -303,7 +303,10 @@ def judge_impl(h, line):
             bad.append((i, "host-panic:" + c[0][:120]))
         if c[2] != IDLE:
             f = [FIELDS[j] for j, (a, b) in enumerate(zip(c[2].split(","), IDLE.split(","))) if a != b]
-            bad.append((i, "not-idle:" + "+".join(f)))
+            if h["calls"][i]["api"] in ("TR", "TG") and c[0] in ("ok", "ex") and "jobQueue" in f:
+                f.remove("jobQueue")     # Runtime.Try is not a "run": jobs wait for the next leave() (C10's concern)
+            if f:
+                bad.append((i, "not-idle:" + "+".join(f)))
     if probe and not probe.startswith("SAME"):
         bad.append((len(calls), "behaviour-differs"))
     return bad
@@ -329,7 +332,7 @@ def shards(items, n):
     return [items[i:i + k] for i in range(0, len(items), k)]
 
 
-def run_parallel(fn, hs, n=8):
+def run_parallel(fn, hs, n=12):
     from concurrent.futures import ThreadPoolExecutor
     parts = shards(hs, n)
     with ThreadPoolExecutor(max_workers=n) as ex:
@@ -378,11 +381,11 @@ def main(ctx):
     detected = ""
     sent = sentinels()
     s_out, _ = run.impl(sent)
-    for i, h in enumerate(sent):
+    for i, h in enumerate(sent[:3]):
         got = strip_probe(s_out[i]) if i < len(s_out) else "?"
         pick = None
         for v in "01":
-            bits = "1" * i + v + "1" * (len(FLAGS) - i - 1)   # other flags fixed: sentinel i only depends on flag i
+            bits = detected + v + "1" * (len(FLAGS) - i - 1)   # earlier flags as detected, later ones do not matter for sentinel i
             m = run.mod([h], bits)
             if m and m[0] == got:
                 pick = v
@@ -391,12 +394,15 @@ def main(ctx):
             ctx.obligation("corr:sentinel:" + FLAGS[i], "correspondence", False, "impl=%s" % got[:300])
             pick = "0"
         detected += pick
+    # rec-overflow is not observable through natives that re-panic the error (both model variants agree on
+    # every generated history); it is pinned by the Lean witness and design/C03.md instead
+    detected += "0"
     ctx.stats["repairs_detected"] = dict(zip(FLAGS, detected))
     ctx.log("repairs present in the tree:", ctx.stats["repairs_detected"])
 
     # ---- stream A: modelled histories
-    nA = 700 if tier == "quick" else 12000
-    nB = 500 if tier == "quick" else 8000
+    nA = 450 if tier == "quick" else 3000
+    nB = 300 if tier == "quick" else 2000
     hsA = []
     corpus = load_corpus(ctx)
     rng = ctx.rng
@@ -417,6 +423,11 @@ def main(ctx):
     outs = [x for part in run_parallel(implA, hsA) for x in part]
     mouts = run.mod(hsA, detected) if model else None
     fixed_outs = run.mod(hsA, "1111") if model else None
+    alt_outs = {}
+    if model:
+        for fi, name in enumerate(FLAGS):
+            if detected[fi] == "0":
+                alt_outs[name] = run.mod(hsA, detected[:fi] + "1" + detected[fi + 1:])
     ctx.count(len(hsA))
     agree = True
     ndiff = 0
@@ -447,13 +458,16 @@ def main(ctx):
                 small = shrink(run, h, lambda hh: (run.mod([hh], detected) or ["?"])[0] != strip_probe(run.impl([hh])[0][0]))
                 p = ctx.write_replay("corr-mismatch-%d" % ndiff, replay_obj(small, detected, run))
                 ctx.log("model/implementation disagree, replay", p)
-                viol.append((small, [(0, "model-mismatch")], True))
+                viol.append((small, [(0, "model-mismatch")], True, None))
         bad = judge_impl(h, line)
         if fixed_outs is not None and mouts is not None and mouts[i] == main_part and fixed_outs[i] != main_part and not bad:
             bad = [(-1, "deviates-from-repaired-model")]      # e.g. control flow corrupted inside the call, idle state fine
         if bad:
             stats["deviating_histories"] += 1
-            viol.append((h, bad, False))
+            why = None
+            if mouts is not None and mouts[i] == main_part:
+                why = [n for n, o in alt_outs.items() if o is not None and o[i] != mouts[i]]
+            viol.append((h, bad, False, why))
     ctx.obligation("corr:model-vs-goja:histories", "correspondence", agree and mouts is not None,
                    "%d of %d histories differ" % (ndiff, len(hsA)) if mouts is not None else "model driver unavailable")
     if len(ctx.samples) < 4:
@@ -469,14 +483,16 @@ def main(ctx):
         ctx.obligation("corr:harness-ran:wild", "correspondence", False, "harness answered %d of %d" % (len(outsB), len(hsB)))
         outsB += ["PANIC missing"] * (len(hsB) - len(outsB))
     wild_abrupt = 0
+    line_of = {}
     for h, line in zip(hsB, outsB):
+        line_of[id(h)] = line
         calls, _ = split_calls(line)
         if any(c[0] != "ok" for c in calls if c):
             wild_abrupt += 1
             ctx.nontriv("B" + strip_probe(line))
         bad = judge_impl(h, line)
         if bad:
-            viol.append((h, bad, False))
+            viol.append((h, bad, False, None))
     stats["wild_histories"] = len(hsB)
     stats["wild_with_abrupt_ending"] = wild_abrupt
     stats["max_depth_limits"] = sorted(stats["max_depth_limits"])
@@ -485,30 +501,35 @@ def main(ctx):
     # ---- violations: shrink, classify, report
     reported = 0
     seen = set()
-    for h, bad, is_corr in viol:
+    for h, bad, is_corr, why in viol:
         if is_corr:
             continue
-        sig0 = ",".join(sorted(set(w.split(":")[0] + ":" + w.split(":")[1][:40] if ":" in w else w for _, w in bad)))
-        if sig0 in seen or reported >= 16:
-            continue
-        seen.add(sig0)
-        reported += 1
-        if "_model" in h:
-            why = explain(run, h, detected, strip_probe(run.impl([h])[0][0]))
+        if why:
+            key = "why:" + ",".join(why)
+        elif "_model" not in h and wild_signature(run, h, line_of.get(id(h))):
+            key = "wild:" + wild_signature(run, h, line_of.get(id(h)))[0]
         else:
-            why = None
+            key = ",".join(sorted(set(w.split(":")[0] + ":" + w.split(":")[1][:40] if ":" in w else w for _, w in bad)))
+        if key in seen or reported >= 10:
+            continue
+        seen.add(key)
+        reported += 1
+        if key.startswith("wild:"):
+            sig = wild_signature(run, h, line_of.get(id(h)))
+            ctx.violation(sig[0], sig[1], replay_obj(h, detected, run))
+            continue
         if why and len(why) >= 1:
             # attribute to the known defect(s): the signature is the set of repairs that explain it
             for name in why:
                 ctx.violation("defect:" + name, "state/behaviour leaks after an abrupt ending; explained by missing repair fixes/C03-%s.diff" % name,
                               replay_obj(h, detected, run))
             continue
-        if "_model" not in h:
-            sig = wild_signature(run, h)
-            if sig:
-                ctx.violation(sig[0], sig[1], replay_obj(h, detected, run))
-                continue
         small = shrink(run, h, lambda hh: bool(judge_impl(hh, run.impl([hh])[0][0])))
+        if "_model" not in h:
+            sig = wild_signature(run, small)
+            if sig:
+                ctx.violation(sig[0], sig[1], replay_obj(small, detected, run))
+                continue
         b2 = judge_impl(small, run.impl([small])[0][0])
         sig = "unexplained:" + ",".join(sorted(set(w[:60] for _, w in b2)))
         ctx.violation(sig, "history violates the idle-state / fresh-runtime oracle: %s" % b2[:3], replay_obj(small, detected, run))
@@ -525,26 +546,46 @@ def main(ctx):
                            "(outcome, probe trace, idle vector) transcript containing at least one abrupt ending")
 
 
-def wild_signature(run, h):
-    """Attribute a stream-B deviation to a known defect by its observable fingerprint (state vector only)."""
-    line = run.impl([h])[0][0]
+def wild_signature(run, h, line=None):
+    """Attribute a stream-B deviation to known defects by the state-vector fingerprint.  Every deviating call must
+    be explained (a later `behaviour-differs` is a consequence of an explained leak); otherwise None."""
+    if line is None:
+        line = run.impl([h])[0][0]
     bad = judge_impl(h, line)
-    kinds = set(w for _, w in bad)
     calls, _ = split_calls(line)
+    first = None
+    extra = []
     for i, w in bad:
-        if not (0 <= i < len(calls)):
+        if w == "behaviour-differs":
             continue
-        api = h["calls"][i]["api"]
-        if w == "not-idle:prgNil" and api == "RP" and calls[i][0] == "fatal":
-            return ("defect:stale-prg", "vm.prg stale after an uncatchable ending of the outermost RunProgram")
-        if w in ("not-idle:interrupted", "not-idle:jobQueue", "not-idle:jobQueue+interrupted") and api in ("TR", "TG") and calls[i][0] == "fatal":
-            return ("defect:try-leave", "Runtime.Try at depth 0 does not run leaveAbrupt when an uncatchable passes")
-        if w.startswith("not-idle:iterStack") and calls[i][0] == "fatal":
-            return ("defect:unwind-abort", "iterator record left on vm.iterStack: iterator close interrupted during unwinding")
-    if kinds == {"behaviour-differs"}:
-        # consequence of one of the above in an earlier call? then that call was reported already
-        return None
-    return None
+        sig = None
+        if 0 <= i < len(calls) and w.startswith("not-idle:") and calls[i][0] == "fatal":
+            c = h["calls"][i]
+            api = c["api"]
+            src = h["prelude"] + c.get("src", "")
+            gen = ("function*" in src or "async " in src)
+            fields = set(w[len("not-idle:"):].split("+"))
+            sigs = []
+            if "prgNil" in fields and api == "RP":
+                fields.discard("prgNil")
+                sigs.append(("defect:stale-prg", "vm.prg stale after an uncatchable ending of the outermost RunProgram"))
+            if fields & {"interrupted", "jobQueue"} and api in ("TR", "TG"):
+                fields -= {"interrupted", "jobQueue"}
+                sigs.append(("defect:try-leave", "Runtime.Try at depth 0 does not run leaveAbrupt when an uncatchable passes"))
+            if gen and fields & {"tryStack", "sp", "iterStack", "refStack"} and "tryStack" in fields:
+                fields -= {"tryStack", "sp", "iterStack", "refStack"}
+                sigs.append(("defect:generator-marker-leak", "uncatchable inside a generator/async resume leaves the generator's try marker on vm.tryStack (the enclosing boundary then restores from the wrong frame)"))
+            if fields & {"iterStack", "refStack"}:
+                fields -= {"iterStack", "refStack"}
+                sigs.append(("defect:unwind-abort", "iterator/reference record left behind: iterator close aborted by an uncatchable during unwinding"))
+            if not fields and sigs:
+                sig = sigs[0]
+                for s2 in sigs[1:]:
+                    extra.append(s2)
+        if sig is None:
+            return None
+        first = first or sig
+    return first
 
 
 def shrink(run, h, fails):
